@@ -85,7 +85,11 @@ def stepWith (atReply guard : Bool) (n : Net) : NLabel → Option Net
     | .inflight =>
       let n' := if atReply then clear n (n.asks t).caller t else n
       some { n' with asks := setN n'.asks t { n'.asks t with st := .answered }, ev := n'.ev ++ [.replied t] }
-    | .abandoned => some { n with ev := n.ev ++ [.replied t] }    -- nobody listens; token no longer matches
+    | .abandoned =>
+      -- nobody listens; `ReplySender::send` still calls clear_wait_for with this ask's token (a no-op in every
+      -- reachable state: `Inv/NetInv.lean`, `clear_stale`)
+      let n' := if atReply then clear n (n.asks t).caller t else n
+      some { n' with ev := n'.ev ++ [.replied t] }
     | _ => none
   | .resume t =>
     match (n.asks t).st with
